@@ -5,6 +5,11 @@ HERE = os.path.dirname(os.path.abspath(__file__))
 ALL = ["C%02d" % i for i in range(1, 19)]
 
 CHECKS = {
+ "C18": dict(
+   technique="TLA+ model XtMsgpack (size calculator vs decoder depth budget) model-checked with TLC and replayed on the real calculator; runs at the real limits (library worker, debug and release binaries) validated by TLC against XtLimits",
+   text="TLC checks on every nesting shape to depth L+2 that the size calculator returns the true size, never sizes ill-formed input, covers everything the decoder accepts and that both accept L-1 and reject L collections; each shape is replayed on the real next_value_size. Documents of all four formats nested around each limit and far beyond (arrays, maps, alternating, key position) are translated in-process and by the debug and release binaries from a file and from stdin; TLC requires clean exits, one verdict across modes and runners, a single threshold and MessagePack 1023/1024.",
+   note="The model uses a scaled limit L=3; the real limits are exercised by the recorded runs. Far depths reach 20 000 (quick) / 1 000 000 (thorough).",
+   design_ref="DESIGN.md 4.7, 6 (C18)"),
  "C07": dict(
    technique="TLA+ model XtEncoding of the re-encoder model-checked with TLC over all unit-class sequences and read schedules; reference decodings replayed on the real encoder; encoded YAML runs validated by TLC against XtObs",
    text="TLC checks that the model of Utf16Decoder/Utf32Decoder/Utf8Encoder::read delivers exactly the UTF-8 bytes of the well-formed prefix whatever the read sizes, reports every ill-formed class as an error and detects the encoding of any stream starting with ASCII or a BOM; each unit-class sequence is replayed with concrete boundary code units on the real encoder under many read sizes and source chunkings; YAML texts in the eight encodings must translate exactly like the UTF-8 text from slices and readers.",
